@@ -435,7 +435,7 @@ def ca_cert_for(l, c, pub, name=None, seed=99):
     return X.issue_cert(l, 2, b"\x01", name or c["issuer"], 1700000000, 1900000000, name or c["issuer"], pub, b"", b"", b"", c["sign_d"], X.DEFAULT_ID, seed)
 
 
-@P.sub("cert", cert_case, quick=450, thorough=12000)
+@P.sub("cert", cert_case, quick=450, thorough=12000, chunk=30)
 def cert(case, ctx):
     """certificates: issued == reference encoding, details, model + library verification, other keys/IDs, alg swaps, sampled bit flips"""
     l = L(ctx)
@@ -547,7 +547,7 @@ def req_field_oracles(ctx, l, c):
                   "req/details/" + k)
 
 
-@P.sub("req", req_case, quick=300, thorough=8000)
+@P.sub("req", req_case, quick=300, thorough=8000, chunk=30)
 def req(case, ctx):
     """certification requests: issued == reference, details, x509_req_verify / x509_signed_verify, other keys/IDs, alg swaps, sampled bit flips"""
     l = L(ctx)
@@ -722,7 +722,7 @@ def lookup_oracles(ctx, l, c, case):
     ctx.case(nontrivial=True, classes=["lookups"], ident=[case, "lookup"], n=n)
 
 
-@P.sub("crl", crl_case, quick=450, thorough=12000)
+@P.sub("crl", crl_case, quick=450, thorough=12000, chunk=30)
 def crl(case, ctx):
     """CRLs with 0..50 entries: issued == reference, details, lookup == membership, verification, other keys/IDs, alg swaps, sampled bit flips"""
     l = L(ctx)
